@@ -165,6 +165,16 @@ def shape_rules(ctx, I, R1, R4, R2, only_undefined=False):
                         ctx.ok(R4, construct, f"raises (loud): {p.exc!r}"[:100])
 
 
+def _has_ref(x) -> bool:
+    if isinstance(x, Ref):
+        return True
+    if isinstance(x, dict):
+        return any(_has_ref(k) or _has_ref(v) for k, v in x.items())
+    if isinstance(x, list):
+        return any(_has_ref(v) for v in x)
+    return False
+
+
 def _rest(ctx, I, me, y2r):
     # O5: a rule compiled after another rule (same extra macro file) is judged on its own definitions
     from ..matchflow import load_file_summary
@@ -192,6 +202,26 @@ def _rest(ctx, I, me, y2r):
         ctx.check(not bad and paths, "C19.O5.judged-on-own-definitions", f"Yaml2Regex._get_pattern[extra macro file, {label}]",
                   f"{len(bad)} path(s) return; leftovers={leftovers(bad[0].value) if bad else ''} conds={bad[0].cond_labels()[:4] if bad else ''}"[:240],
                   f"a rule whose library macro refers to an undefined macro is rejected ({label})")
+    # O6: macro definitions supplied through extra files are in play whatever the rule's own `macros` section looks like
+    # (absent, null, empty, non-empty): a reference is expanded or reported, never kept
+    lib2 = {"macros": [{"name": "@lib", "pattern": "nop"}]}
+    for mlabel, msec in (("absent", "ABSENT"), ("null", None), ("empty list", []), ("one definition", [{"name": "@own", "pattern": "ret"}])):
+        for plabel, pattern in (("a reference the extra file defines", ["@lib", "push"]), ("an undefined reference", ["@lib", {"mov": [U]}]),
+                                ("only an undefined reference", [U])):
+            doc = {"pattern": pattern}
+            if msec != "ABSENT":
+                doc["macros"] = msec
+
+            def thunk6(I, doc=doc):
+                I.run.user["docs"] = {"<LIB>": lib2}
+                so = Obj(y2r, {"loaded_file": lift(I, doc),
+                               "macros_from_terminal_filepath": ListV([Str((Hole("LIB", "path", True),))])})
+                return I.call_func(y2r.find_method("_get_pattern"), [], {}, so, None, None)
+            for p in Is.explore(thunk6):
+                left = leftovers(p.value) if p.kind == "return" else []
+                ctx.check(p.kind == "raise" or not left, "C19.O6.extra-files-always-considered",
+                          f"Yaml2Regex._get_pattern[rule macros section {mlabel}; {plabel}]", f"returns with leftovers={left}"[:160],
+                          "with an extra macro file given, every @reference is expanded or the compilation fails")
     # O3 macro name validation happens first
     for bad in ("m", "macro@x", ""):
         def thunk3(I, bad=bad):
